@@ -240,6 +240,14 @@ func (c *Container) Peek(n int) []byte {
 		return nil
 	}
 
+	// Never gather (or allocate for) more data than is held.
+	if available := c.Length(); n > available {
+		n = available
+		if n == 0 {
+			return nil
+		}
+	}
+
 	// Check if the first slice holds enough data.
 	if len(c.compartments[c.offset]) >= n {
 		return c.compartments[c.offset][:n]
